@@ -306,7 +306,7 @@ pub fn run(tier: Tier) -> i32 {
         }
     }
     // family programs (compiled here once, dedup on and off)
-    let (jobs, _) = c01::family_jobs(tier, &["D", "E-small", "P"]);
+    let (jobs, _) = c01::family_jobs(tier, &["D", "E-small", "P", "L"]);
     let step = tier.pick(7usize, 1usize);
     let jobs: Vec<_> = jobs.into_iter().enumerate().filter(|(i, j)| j.family == "D" || i % step == 0).map(|(_, j)| j).collect();
     let exports_from_families: Mutex<Vec<String>> = Mutex::new(vec![]);
